@@ -48,7 +48,7 @@ def impl_rtsysex(case):
 
 def job(j):
     tag, cases = j
-    return tag, core.eval_cases(pc.COMP_PARSE, cases, impl_resync if tag == 'resync' else impl_rtsysex)
+    return tag, core.eval_cases(pc.COMP_PARSE, cases, impl_resync if tag == 'resync' else impl_rtsysex, repeat=100, fresh=True)
 
 
 def model_input(tag, case):
@@ -58,12 +58,26 @@ def model_input(tag, case):
     return case
 
 
+def prefix_messages(tag, case):
+    import mido
+    if tag != 'resync':
+        return None
+    try:
+        return [m.bytes() for m in mido.parser.parse_all(case[1:1 + case[0]])]
+    except Exception as e:  # noqa: BLE001
+        return 'raises %s' % type(e).__name__
+
+
 def job2(j):
     """eval_cases sends the case itself to the model; here the model input is derived from the case."""
     tag, cases = j
     impl = impl_resync if tag == 'resync' else impl_rtsysex
     rec = {'n': len(cases), 'dis': [], 'fail': [], 'dist': {}, 'hashes': set(), 'ndis': 0, 'nfail': 0}
     ios = []
+    # "the messages of P" are taken before anything else is parsed, and once more afterwards: they are the messages of P, not of P and the
+    # calls that went before (a parser whose answer for P changes with what the process has parsed earlier gives P + M something else than
+    # the messages of P followed by M)
+    before = [prefix_messages(tag, c) for c in cases]
     for c in cases:
         io, fail, t = impl(c)
         ios.append(io)
@@ -73,12 +87,22 @@ def job2(j):
             rec['nfail'] += 1
             if len(rec['fail']) < 20:
                 rec['fail'].append((fail[0], fail[1], {'component': tag, 'case': c}))
+    for c, b4 in zip(reversed(cases), reversed(before)):
+        now = prefix_messages(tag, c)
+        if now != b4:
+            rec['nfail'] += 1
+            if len(rec['fail']) < 20:
+                P = c[1:1 + c[0]]
+                rec['fail'].append(('resync-prefix-messages-change', 'the messages of the prefix %r were %r when it was first parsed and %r later in the same process: '
+                                    'P followed by a message then yields something else than the messages of P followed by the message' % (P, b4, now), {'component': tag, 'case': c}))
     mos = core.model_run([(pc.COMP_PARSE, model_input(tag, c)) for c in cases])
     for c, io, mo in zip(cases, ios, mos):
         if io != mo:
             rec['ndis'] += 1
             if len(rec['dis']) < 20:
                 rec['dis'].append((pc.COMP_PARSE, model_input(tag, c), io, mo))
+    if rec['dis'] and not rec['fail']:
+        core.history_search(rec, pc.impl_parse, [(case, io) for (_, case, io, _) in rec['dis'][:4]], comp=pc.COMP_PARSE)
     return tag, rec
 
 
